@@ -65,7 +65,8 @@ def twins():
 
 
 def _is_arr(x):
-    return isinstance(x, (jax.Array, np.ndarray))
+    # exactly the leaves equinox.filter_jit traces (JAX arrays, NumPy arrays and NumPy scalars)
+    return bool(eqx.is_array(x))
 
 
 def _split_leaves(op):
@@ -93,8 +94,9 @@ def run_case(key, twin=False):
     has_mask = bool(MASK_LEAVES & set(leaf_names(e)))
     pst = bld.structs(e)
     leaves0, tdef0 = jax.tree.flatten(op0)
-    int_pos = [i for i, l in enumerate(leaves0) if _is_arr(l) and not jnp.issubdtype(l.dtype, jnp.inexact)]
+    int_pos = [i for i, l in enumerate(leaves0) if _is_arr(l) and not jnp.issubdtype(jnp.asarray(l).dtype, jnp.inexact)]
     int_vals = [np.asarray(leaves0[i]) for i in int_pos]
+    int_pos0 = list(int_pos)
     ctx = E.Ctx()
     dec = Decider()
     assume = bld.assumptions(e)
@@ -110,7 +112,7 @@ def run_case(key, twin=False):
     def t2(p, ints, x):
         op = bld.build(e, list(p))
         leaves, tdef = jax.tree.flatten(op)
-        ipos = [i for i, l in enumerate(leaves) if _is_arr(l) and not jnp.issubdtype(l.dtype, jnp.inexact)]
+        ipos = [i for i, l in enumerate(leaves) if _is_arr(l) and not jnp.issubdtype(jnp.asarray(l).dtype, jnp.inexact)]
         for i, v in zip(ipos, ints):
             leaves[i] = v
         dyn, static = eqx.partition(jax.tree.unflatten(tdef, leaves), eqx.is_array)
